@@ -69,6 +69,7 @@ func OracleC07(r *SeqRun) []explore.Violation {
 	// the key's oldest holder instead of honouring the request's own flag (listed known finding)
 	joined := map[holdKey]bool{}
 	updFresh := false
+	updExisting := map[holdKey]bool{} // holds whose terms were changed by a LOCK with the update flag
 	var prev *hapi.Snapshot
 	for _, st := range append(append([]SeqStep{}, r.Ramp...), r.Steps...) {
 		if st.Snap == nil {
@@ -87,6 +88,9 @@ func OracleC07(r *SeqRun) []explore.Violation {
 							was = true
 						}
 					}
+				}
+				if was && st.Op.Cmd != nil && st.Op.Cmd.Type == 1 && st.Op.Cmd.Flag&0x02 != 0 && st.Op.Cmd.Key == k.Key[15] && st.Op.Cmd.Id == h.LockId[15] {
+					updExisting[holdKey{k.DB, k.Key, h.LockId}] = true
 				}
 				if !was {
 					if pk != nil && len(pk.Holds) > 0 {
@@ -109,6 +113,9 @@ func OracleC07(r *SeqRun) []explore.Violation {
 		a, ok := after[hk]
 		switch cls {
 		case 2:
+			if !ok && h.ExpriedFlag&fUnlim == 0 && h.ExpriedIn <= unitSeconds(h.ExpriedFlag)+1 {
+				continue // no more than the deadline tolerance was left: it may count as expired after the outage
+			}
 			if !ok {
 				add("persisted-hold-lost"+suffix, fmt.Sprintf("hold db%d key%x id%x (depth %d, expiry flag %#x, age %ds) counts as persisted but was not restored", hk.db, hk.key[15], hk.id[15], h.Depth, h.ExpriedFlag, h.StartAgo))
 				continue
@@ -126,6 +133,8 @@ func OracleC07(r *SeqRun) []explore.Violation {
 			sfx := ""
 			if updFresh {
 				sfx = "/update-flag-on-fresh-lock"
+			} else if updExisting[hk] && a.Depth < h.Depth {
+				sfx = "/depth-lost-after-update-outlived-the-original-records"
 			}
 			add("restored-terms-differ"+sfx, fmt.Sprintf("hold db%d key%x id%x restored with depth %d Count %d Rcount %d, it had depth %d Count %d Rcount %d", hk.db, hk.key[15], hk.id[15], a.Depth, a.Count, a.Rcount, h.Depth, h.Count, h.Rcount))
 		}
